@@ -38,6 +38,7 @@ type caller struct {
 	Ctx     string        `json:"ctx"`      // background, deadline, cancel
 	CtxFor  time.Duration `json:"ctx_for,omitempty"`
 
+	Cancellable bool `json:"cancellable_never_cancelled,omitempty"`
 	// results
 	Returned bool          `json:"returned"`
 	At       time.Duration `json:"returned_at"`
@@ -83,6 +84,9 @@ func gen(rng *rand.Rand, idx int) *tcase {
 			switch rng.IntN(5) {
 			case 0, 1:
 				cl.Ctx = "background"
+				// (half of the callers without a deadline bring a context that COULD be cancelled - an HTTP
+				// request's context, a WithCancel, a WithValue over one - and never is: no deadline all the same)
+				cl.Cancellable = rng.IntN(2) == 0
 			case 2, 3:
 				cl.Ctx = "deadline"
 				cl.CtxFor = []time.Duration{time.Second, time.Minute, 10 * time.Minute}[rng.IntN(3)] + eps
@@ -131,7 +135,7 @@ func TestC16(t *testing.T) {
 			lookupDuringPollOfStaleSecret(t, r, i)
 		}
 	}
-	r.Require("requests_timed_out_inside_the_client", "lookups_whose_cache_write_failed", "lookups_disabled_cases", "lookups_enabled_cases", "shared_flights", "failed_lookups", "hang_bounded_callers", "retry_after_foreign_cancel", "successful_lookups", "stress_lookups", "cases_with_failing_cache", "handles_followed_a_later_poll", "updaters_followed_a_later_poll", "real_client_cancel_cases", "overlapping_cache_writes", "real_client_slow_service_cases", "lookups_after_the_service_recovered", "real_client_failing_status_cases", "lookups_during_a_poll_of_a_stale_secret")
+	r.Require("callers_with_a_cancellable_context_without_deadline", "requests_timed_out_inside_the_client", "lookups_whose_cache_write_failed", "lookups_disabled_cases", "lookups_enabled_cases", "shared_flights", "failed_lookups", "hang_bounded_callers", "retry_after_foreign_cancel", "successful_lookups", "stress_lookups", "cases_with_failing_cache", "handles_followed_a_later_poll", "updaters_followed_a_later_poll", "real_client_cancel_cases", "overlapping_cache_writes", "real_client_slow_service_cases", "lookups_after_the_service_recovered", "real_client_failing_status_cases", "lookups_during_a_poll_of_a_stale_secret")
 	r.Rule("seeded cases: AllowLookup on/off; 1-2 undeclared names each with a service mode (ok, slow D, fail, fail-then-ok, hang for ever, not found) and 1-6 callers (LookupSecret / NewUpdater / Fields.Apply) with start offsets and contexts (background, deadline 1 s/1 min/10 min, cancelled at a random instant). Distinct = (AllowLookup, service mode, number of callers, set of context kinds, set of caller outcomes)")
 }
 
@@ -227,6 +231,14 @@ func runCase(t *testing.T, r *evid.Run, c *tcase) {
 					time.Sleep(cl.StartAt)
 					ctx := context.Background()
 					var cancel context.CancelFunc = func() {}
+					if cl.Cancellable {
+						type ctxKey struct{}
+						var c0 context.CancelFunc
+						ctx, c0 = context.WithCancel(ctx)
+						defer c0()
+						ctx = context.WithValue(ctx, ctxKey{}, "request-scoped")
+						r.Count("callers_with_a_cancellable_context_without_deadline", 1)
+					}
 					switch cl.Ctx {
 					case "deadline":
 						ctx, cancel = context.WithTimeout(ctx, cl.CtxFor)
